@@ -77,26 +77,35 @@ RECURSIVE SumTo(_, _)
 SumTo(ns, i) == IF i = 0 THEN 0 ELSE ns[i] + SumTo(ns, i - 1)
 Max2(a, b) == IF a >= b THEN a ELSE b
 Min2(a, b) == IF a <= b THEN a ELSE b
-FlatShards(shapes, n) ==
+\* `align`: torch FSDP with use_orig_params=True starts every original parameter at a multiple of 16 bytes inside the flat
+\* parameter (align = 16 / itemsize elements, 4 for float32); align = 1 is plain concatenation.  The flat parameter is then padded
+\* to a multiple of n and cut into n equal chunks.
+RoundUp(x, a) == ((x + a - 1) \div a) * a
+RECURSIVE OffsetOf(_, _, _)
+OffsetOf(ns, i, align) == IF i = 1 THEN 0 ELSE RoundUp(OffsetOf(ns, i - 1, align) + ns[i - 1], align)
+FlatShardsA(shapes, n, align) ==
   LET ns    == [i \in 1..Len(shapes) |-> Prod(shapes[i])]
-      total == SumTo(ns, Len(ns))
-      chunk == (total + n - 1) \div n
+      total == OffsetOf(ns, Len(ns), align) + ns[Len(ns)]
+      chunk == RoundUp(total, n) \div n
   IN [k \in 1..n |-> [i \in 1..Len(shapes) |->
-        LET off == SumTo(ns, i - 1)
+        LET off == OffsetOf(ns, i, align)
             lo  == Max2(off, (k - 1) * chunk)
             hi  == Min2(off + ns[i], k * chunk)
         IN IF lo < hi THEN <<lo - off, hi - off>> ELSE <<0, 0>>]]
-ShardPieces(shapes, n) ==
-  LET fs == FlatShards(shapes, n)
+FlatShards(shapes, n) == FlatShardsA(shapes, n, 1)
+ShardPiecesA(shapes, n, align) ==
+  LET fs == FlatShardsA(shapes, n, align)
   IN [k \in 1..n |-> [i \in 1..Len(shapes) |-> Recover(shapes[i], fs[k][i][1], fs[k][i][2])]]
+ShardPieces(shapes, n) == ShardPiecesA(shapes, n, 1)
 \* across the shard ranks every element of every parameter lies in exactly one recovered piece (=> is updated exactly once per step)
-ExactlyOnceAcrossShards(shapes, n) ==
-  LET sp == ShardPieces(shapes, n)
+ExactlyOnceAcrossShardsA(shapes, n, align) ==
+  LET sp == ShardPiecesA(shapes, n, align)
   IN \A i \in 1..Len(shapes) :
        LET all == FlattenSeq([k \in 1..n |-> sp[k][i]])
        IN /\ (Prod(shapes[i]) > 0) => (all # <<>> /\ all[1].off = 0 /\ all[Len(all)].off + all[Len(all)].len = Prod(shapes[i]))
           /\ \A j \in 1..(Len(all) - 1) : all[j].off + all[j].len = all[j + 1].off
           /\ \A j \in 1..Len(all) : ValidPiece(shapes[i], all[j])
+ExactlyOnceAcrossShards(shapes, n) == ExactlyOnceAcrossShardsA(shapes, n, 1)
 
 \* dim-0 sharding of DTensor parameters (fully_shard / hybrid shard, C08): rows are cut into ceil(rows / n) sized chunks, trailing
 \* ranks may receive no row; the local shard of rank k is ONE slab (or nothing) and is optimised as an ordinary tensor
